@@ -160,6 +160,7 @@ pub fn eval(n: &Node, at: NV) -> R {
                 PostOp::Deg => {
                     let v = r.v.f() * crate::ev_f64::DEG;
                     match tol_of(q) {
+                        Some(_) if r.v.f().is_finite() && !(v.abs() < 1e300) => num(v, Q::Skip),
                         Some(t) => num(v, Q::Tol(t * crate::ev_f64::DEG + v.abs() * 1e-12)),
                         None => num(v, Q::Skip),
                     }
@@ -167,6 +168,7 @@ pub fn eval(n: &Node, at: NV) -> R {
                 PostOp::Rad => {
                     let v = r.v.f() * crate::ev_f64::RAD;
                     match tol_of(q) {
+                        Some(_) if r.v.f().is_finite() && !(v.abs() < 1e300) => num(v, Q::Skip),
                         Some(t) => num(v, Q::Tol(t * crate::ev_f64::RAD + v.abs() * 1e-9)),
                         None => num(v, Q::Skip),
                     }
